@@ -4,7 +4,9 @@ From RTA.Model Require Import Base Arrival Wcet Demand WellFormed.
 From RTA.Proofs Require Import StepsProofs.
 
 (* steps_spec f l h: l lists, in strictly increasing order, exactly the points d of [1, h] with f (d-1) < f d.
-   steps_exact_class excludes the two known classes (plateau-ended Curve, ArrivalCurvePrefix). *)
+   steps_exact_class excludes the known class ArrivalCurvePrefix only: since the repair of Curve::number_arrivals at
+   exact multiples of the largest known distance, every well-formed Curve is covered (steps_exact_class (CurveAB d) = True),
+   also those whose delta-min vector ends in a plateau (former finding C11-plateau-curve). *)
 Theorem C11_arrival_steps_exact : forall ab, wf_ab ab -> steps_exact_class ab ->
   forall h, steps_spec (na ab) (steps_upto ab h) h.
 Proof. exact steps_upto_exact. Qed.
@@ -20,9 +22,16 @@ Theorem C11_empty_when_nothing_arrives : forall ab, wf_ab ab -> steps_exact_clas
 Proof. exact steps_empty_when_nothing_arrives. Qed.
 Theorem C11_never_zero : forall ab, wf_ab ab -> steps_exact_class ab -> forall h, ~ In 0 (steps_upto ab h).
 Proof. exact steps_never_zero. Qed.
-(* the two known classes (known_findings.json: C11-plateau-curve, C11-prefix-zero-step) are genuinely outside *)
-Theorem C11_plateau_curve_refuted : exists d h, wf_dmin d /\ plateau_end d /\ ~ steps_spec (na (CurveAB d)) (steps_upto (CurveAB d) h) h.
-Proof. exact plateau_curve_refuted. Qed.
+(* every well-formed Curve: no side condition on plateaus *)
+Theorem C11_curve_steps_exact : forall d, wf_dmin d -> forall h, steps_spec (na (CurveAB d)) (steps_upto (CurveAB d) h) h.
+Proof. exact curve_ab_steps_exact. Qed.
+(* regression for the repaired finding C11-plateau-curve: the former witness [5; 10; 10] (a plateau-ended vector) meets the
+   specification at every horizon; number_arrivals(10) = 2 (3 jobs need a window longer than 10) and the step is at 11 *)
+Theorem C11_plateau_curve_steps_exact : wf_dmin [5; 10; 10] /\ plateau_end [5; 10; 10] /\
+  (forall h, steps_spec (na (CurveAB [5; 10; 10])) (steps_upto (CurveAB [5; 10; 10]) h) h) /\
+  na (CurveAB [5; 10; 10]) 10 = 2 /\ In 11 (steps_upto (CurveAB [5; 10; 10]) 12).
+Proof. exact plateau_curve_steps_exact. Qed.
+(* the remaining known class (known_findings.json: C11-prefix-zero-step) is genuinely outside *)
 Theorem C11_prefix_zero_step_refuted : exists hz s h, wf_prefix hz s /\ In 0 (steps_upto (PrefixAB hz s) h).
 Proof. exact prefix_zero_step_refuted. Qed.
 
